@@ -741,6 +741,8 @@ def run(ctx) -> None:
     ctx.rule("C08.R2b-callsite", "callers of get_components(return_copy=False) that write through the result invalidate")
     ctx.rule("C08.R3-private-values", "cache values never alias returned or stored objects")
     ctx.rule("C08.R4-key", "the cache key covers platform and component id; other parameters are pinned by the guard")
+    ctx.rule("C08.R7-cached-is-returned", "what get_component_configuration stores in the cache is the value it returns: on no path between "
+             "the store and the return is the result rebound, written into or passed to a mutator")
     ctx.rule("C08.R4b-pattern", "invalidation patterns agree with the cache label format")
     ctx.rule("C08.R5-external", "no code outside flowir.py writes FlowIRConcrete's storage or cache directly")
     ctx.rule("C08.R6-readset", "regions read by get_component_configuration are exactly the regions treated as relevant")
@@ -907,6 +909,7 @@ def run(ctx) -> None:
 
     # ---- R4: key coverage and guard ---------------------------------------------------------
     _check_key(ctx, an)
+    _check_cached_is_returned(ctx, an)
 
     # ---- R5: external writers -----------------------------------------------------------------
     ext = 0
@@ -1048,6 +1051,73 @@ def _check_handout_site(ctx, m, fn, call: ast.Call) -> None:
                trivial=True)
 
 
+def _check_cached_is_returned(ctx, an: Analysis) -> None:
+    """R7: a cache hit must hand out what a miss returned."""
+    fn = an.methods["get_component_configuration"]
+    cfg = an.cfg_of(fn)
+    rule = "C08.R7-cached-is-returned"
+    # stores into the cache: self._cache[<label>] = f(<local>)  /  self._cache.set(<label>, f(<local>))
+    stores = []
+    for n in cfg.nodes:
+        a = n.ast
+        if n.kind != "stmt" or a is None:
+            continue
+        if isinstance(a, ast.Assign) and any(isinstance(t, ast.Subscript) and (dotted(t.value) or "").endswith("_cache") for t in a.targets):
+            stores.append((n, a.value))
+        for c in own_calls(a):
+            if (call_name(c) or "").endswith("_cache.set") and len(c.args) >= 2:
+                stores.append((n, c.args[1]))
+    ctx.floor(rule, len(stores), 1, "cache stores in get_component_configuration")
+    for (sn, val) in stores:
+        names = [x.id for x in ast.walk(val) if isinstance(x, ast.Name) and x.id not in ("deep_copy", "copy", "deepcopy")]
+        cached = names[0] if names else None
+        ctx.require(cached is not None, "cannot see which local is stored in the component cache")
+        after = cfg.reach([m for (m, lab) in sn.succ if lab is None], ignore_labels=("exc",))
+
+        def touches(n_) -> Optional[ast.AST]:
+            a_ = n_.ast
+            if a_ is None or n_.kind not in ("stmt", "for", "with"):
+                return None
+            if isinstance(a_, (ast.Assign, ast.AugAssign, ast.AnnAssign)):
+                tg = a_.targets if isinstance(a_, ast.Assign) else [a_.target]
+                for t in tg:
+                    root = t
+                    while isinstance(root, (ast.Subscript, ast.Attribute)):
+                        root = root.value
+                    if isinstance(root, ast.Name) and root.id == cached:
+                        return a_
+            if isinstance(a_, ast.Delete):
+                for t in a_.targets:
+                    root = t
+                    while isinstance(root, (ast.Subscript, ast.Attribute)):
+                        root = root.value
+                    if isinstance(root, ast.Name) and root.id == cached:
+                        return a_
+            if not isinstance(a_, (ast.FunctionDef, ast.ClassDef, ast.If, ast.While, ast.For, ast.Try, ast.With)):
+                for c in own_calls(a_):
+                    if isinstance(c.func, ast.Attribute) and c.func.attr in ("update", "pop", "setdefault", "clear", "popitem", "append", "extend",
+                                                                            "remove", "insert", "__setitem__"):
+                        root = c.func.value
+                        while isinstance(root, (ast.Subscript, ast.Attribute, ast.Call)):
+                            root = root.func.value if isinstance(root, ast.Call) and isinstance(root.func, ast.Attribute) else getattr(root, "value", None)
+                            if root is None:
+                                break
+                        if isinstance(root, ast.Name) and root.id == cached:
+                            return c
+            return None
+        rets = [n_ for n_ in cfg.nodes if n_.id in after and n_.kind == "stmt" and isinstance(n_.ast, ast.Return)
+                and isinstance(n_.ast.value, ast.Name) and n_.ast.value.id == cached]
+        bad = [touches(n_) for n_ in cfg.nodes if n_.id in after and touches(n_) is not None]
+        ok = bool(rets) and not bad
+        ctx.ob(rule, sn.ast, ok,
+               "'%s' is returned as it was stored in the cache" % cached if ok else
+               ("after '%s' has been stored in the cache it is still modified before it is returned (%s): a miss returns the corrected "
+                "value, every later hit the uncorrected one - e.g. an interpreter component gets expandArguments 'none' on the first "
+                "query and 'double-quote' from the cache" % (cached, short(bad[0], 70))) if bad else
+               "the value stored in the cache is not the value that is returned",
+               construct="cache store of %s is the last write before 'return %s'" % (cached, cached))
+
+
 def _check_key(ctx, an: Analysis) -> None:
     fn = an.methods["get_component_configuration"]
     cfg = an.cfg_of(fn)
@@ -1109,13 +1179,13 @@ def _check_key(ctx, an: Analysis) -> None:
             guard_assign = n
     ctx.require(guard_assign is not None, "guard variable %s is not assigned" % guard_name)
     gnames = set(source.names_in(guard_assign.value))
-    exempt = {id_param: "part of the key", "platform": "part of the key",
-              "ignore_convert_errors": "frozen exemption: only changes behaviour when a value cannot be converted "
-                                       "(an erroneous configuration); does not select a different valid result"}
+    # (an earlier version exempted ignore_convert_errors as "only matters for erroneous configurations"; a lenient query followed
+    # by a strict one showed that the exemption hid a genuine defect - see DESIGN section 5 - and it was removed)
+    exempt = {id_param: "part of the key", "platform": "part of the key"}
     for p in params:
         if p in exempt:
             ctx.ob("C08.R4-key", guard_assign, True, "parameter %s: %s" % (p, exempt[p]),
-                   construct="guard covers %s" % p, trivial=(p != "ignore_convert_errors"))
+                   construct="guard covers %s" % p, trivial=True)
             continue
         okp = p in gnames
         ctx.ob("C08.R4-key", guard_assign, okp,
@@ -1161,6 +1231,17 @@ def _check_key(ctx, an: Analysis) -> None:
                     ok2 = len(a0.right.elts) == 2
                     ctx.ob("C08.R4b-pattern", c, ok2, "pattern is filled with (stage, name)" if ok2 else
                            "pattern is not filled with exactly (stage, name)", construct=short(a0, 160), trivial=True)
+                    # the name is free text (validation accepts 'a+b'): it must go into the regular expression escaped; the
+                    # stage is an integer
+                    if ok2:
+                        nm = a0.right.elts[1]
+                        esc = isinstance(nm, ast.Call) and (call_name(nm) or "").endswith("re.escape")
+                        ctx.ob("C08.R4b-pattern", c, esc,
+                               "the component name is escaped before it is interpolated into the invalidation pattern" if esc else
+                               "the component name %s is interpolated into the invalidation pattern without re.escape: for a name with a "
+                               "regular-expression metacharacter ('a+b', 'a?b') the pattern does not match the component's own cache "
+                               "labels, every mutator leaves the stale resolved configuration in the cache" % short(nm, 40),
+                               construct="%s: name escaped" % short(a0, 100))
     ctx.floor("C08.R4b-pattern", pats, 1, "invalidate_reg_expression call sites")
 
 
